@@ -197,3 +197,12 @@ def _free_sharded(params):
 
 
 HARNESSES["history"].free = _free_sharded
+
+
+def thorough_extra(seed):
+    jobs = []
+    for s0 in range(STEPS):
+        jobs.append({"harness": "history", "params": {"k": 4, "first": s0}, "weight": 30, "cpu_cap": 9000, "wall_cap": 10000})
+        if s0 in (0, 3, 9, 11):
+            jobs.append({"harness": "history", "params": {"k": 2, "first": s0, "free_char": True}, "weight": 60, "cpu_cap": 9000, "wall_cap": 10000, "path_cap": 120})
+    return jobs
